@@ -24,6 +24,8 @@ import (
 	simapp "github.com/provenance-io/provenance/app"
 	"github.com/provenance-io/provenance/x/marker"
 	markertypes "github.com/provenance-io/provenance/x/marker/types"
+
+	minttypes "github.com/cosmos/cosmos-sdk/x/mint/types"
 )
 
 // C05: histories of marker administration on a world of 2-3 denoms, run through the REAL message
@@ -329,10 +331,31 @@ func (g *c05Gen) otherDenom(d int) int {
 // target: mostly a user, sometimes the marker's own account, sometimes ANOTHER marker's account
 // (cross-holdings).
 func (g *c05Gen) target(d int) int {
-	switch x := g.r.Intn(24); {
+	switch x := g.r.Intn(25); {
 	case x < 2:
 		return c05Esc(d)
 	case x < 5:
+		return c05Esc(g.otherDenom(d))
+	case x < 6:
+		// a module account: a blocked address for MsgSend / MsgWithdraw / MsgTransfer
+		return []int{99, 99, 100}[g.r.Intn(3)]
+	default:
+		return g.user()
+	}
+}
+
+// govTarget: where governance sends coins (WithdrawEscrow proposal, SupplyIncrease proposal with a
+// target): these routes do not check blocked addresses, so the marker module account (the coin
+// pool that mints and burns pass through) and the governance account are possible receivers.
+func (g *c05Gen) govTarget(d int) int {
+	switch x := g.r.Intn(20); {
+	case x < 5:
+		return 99
+	case x < 6:
+		return 100
+	case x < 7:
+		return c05Esc(d)
+	case x < 9:
 		return c05Esc(g.otherDenom(d))
 	default:
 		return g.user()
@@ -787,6 +810,15 @@ func (g *c05Gen) anyOp(d int, o c05Obs) c05Op {
 		return g.simple(d, "delete", g.holder())
 	case 10:
 		f := g.user()
+		if g.r.Intn(4) == 0 {
+			// forced transfers cannot empty module accounts; they can empty another marker's account.
+			// (An address reserved for a marker that does not exist is not used as a source: whether
+			// an unsigned base account exists there is not part of the model.)
+			f = []int{99, 100, 99}[g.r.Intn(3)]
+			if e2 := g.otherDenom(d); o.den[e2].has && g.r.Intn(2) == 0 {
+				f = c05Esc(e2)
+			}
+		}
 		return g.opTransfer(d, g.holder(), f, g.target(d), g.around(x.bal(f)))
 	case 11:
 		return g.opGrant(d, g.holder(), g.user(), g.mask(x.restr))
@@ -795,7 +827,7 @@ func (g *c05Gen) anyOp(d int, o c05Obs) c05Op {
 	case 13:
 		t := -1
 		if g.r.Intn(2) == 0 {
-			t = g.user()
+			t = g.govTarget(d)
 		}
 		return g.opGovInc(d, g.authority(), g.small(), t)
 	case 14:
@@ -803,7 +835,7 @@ func (g *c05Gen) anyOp(d int, o c05Obs) c05Op {
 	case 15:
 		return g.opGovStatus(d, g.authority(), 1+g.r.Intn(5))
 	case 16:
-		return g.opGovWithdraw(d, g.authority(), g.target(d), g.around(x.bal(c05Esc(d))))
+		return g.opGovWithdraw(d, g.authority(), g.govTarget(d), g.around(x.bal(c05Esc(d))))
 	case 17:
 		f := g.user()
 		return g.opSend(d, f, g.target(d), g.around(x.bal(f)))
@@ -817,7 +849,7 @@ func (g *c05Gen) anyOp(d int, o c05Obs) c05Op {
 		if g.r.Intn(2) == 0 {
 			return g.opWithdrawOther(d, g.holder(), g.user(), e, g.around(o.den[e].bal(c05Esc(d))))
 		}
-		return g.opGovWithdrawOther(g.authority(), d, g.user(), e, g.around(o.den[e].bal(c05Esc(d))))
+		return g.opGovWithdrawOther(g.authority(), d, g.govTarget(e), e, g.around(o.den[e].bal(c05Esc(d))))
 	}
 }
 
@@ -981,7 +1013,7 @@ func (g *c05Gen) worldOp(o c05Obs) (c05Op, bool) {
 		if d, e, ok := g.foreign(o); ok {
 			amt := g.within(o.den[e].bal(c05Esc(d)))
 			if r.Intn(4) == 0 {
-				return g.opGovWithdrawOther(g.authority(), d, g.user(), e, amt), true
+				return g.opGovWithdrawOther(g.authority(), d, g.govTarget(e), e, amt), true
 			}
 			return g.opWithdrawOther(d, g.holder(), g.user(), e, amt), true
 		}
@@ -1120,6 +1152,23 @@ func (g *c05Gen) next(o c05Obs) c05Op {
 			}
 			return g.opGovStatus(d, g.authority(), 4)
 		}
+		if x.bal(99).IsPositive() && r.Intn(100) < 22 {
+			// coins of the denom sit in the marker module account (the coin pool): burns and supply
+			// decreases must pass through it without touching them; so must a forced transfer attempt
+			switch r.Intn(5) {
+			case 0, 1:
+				return g.opBurn(d, g.holder(), g.within(x.bal(esc)))
+			case 2:
+				return g.opGovDec(d, g.authority(), g.within(x.bal(esc)))
+			case 3:
+				return g.opMint(d, g.holder(), g.small())
+			default:
+				if x.restr {
+					return g.opTransfer(d, 1, 99, g.user(), g.within(x.bal(99)))
+				}
+				return g.opBurn(d, g.holder(), g.within(x.bal(esc)))
+			}
+		}
 		y := r.Intn(100)
 		switch {
 		case y < 12:
@@ -1156,7 +1205,7 @@ func (g *c05Gen) next(o c05Obs) c05Op {
 		case y < 82:
 			t := -1
 			if r.Intn(2) == 0 {
-				t = g.user()
+				t = g.govTarget(d)
 			}
 			if r.Intn(3) == 0 {
 				return g.opGovInc(d, g.authority(), g.around(g.headroom(o, d)), t)
@@ -1167,7 +1216,7 @@ func (g *c05Gen) next(o c05Obs) c05Op {
 		case y < 90:
 			return g.opGovStatus(d, g.authority(), []int{2, 3, 3, 4, 4, 5}[r.Intn(6)])
 		case y < 93:
-			return g.opGovWithdraw(d, g.authority(), g.target(d), g.around(x.bal(esc)))
+			return g.opGovWithdraw(d, g.authority(), g.govTarget(d), g.around(x.bal(esc)))
 		case y < 95:
 			return g.opGovSetAdmin(d, g.authority(), g.user(), g.mask(x.restr))
 		case y < 96:
@@ -1189,7 +1238,7 @@ func (g *c05Gen) next(o c05Obs) c05Op {
 		case y < 57:
 			return g.simple(d, "cancel", g.holder())
 		case y < 65:
-			return g.opGovWithdraw(d, g.authority(), g.target(d), g.around(x.bal(esc)))
+			return g.opGovWithdraw(d, g.authority(), g.govTarget(d), g.around(x.bal(esc)))
 		case y < 73:
 			// other markers' coins must leave the account before it can be deleted
 			for e := 0; e < g.nd; e++ {
@@ -1441,6 +1490,16 @@ func TestC05(t *testing.T) {
 						fund(t, app, ctx, e.addrs[n], sdk.NewCoins(sdk.NewInt64Coin(c05Denoms[d], int64(1+r.Intn(60)))))
 					}
 				}
+				if r.Intn(3) == 0 {
+					// a genesis balance of the marker module account (the coin pool)
+					cs := sdk.NewCoins(sdk.NewInt64Coin(c05Denoms[d], int64(1+r.Intn(60))))
+					if err := app.BankKeeper.MintCoins(ctx, minttypes.ModuleName, cs); err != nil {
+						t.Fatal(err)
+					}
+					if err := app.BankKeeper.SendCoinsFromModuleToModule(ctx, minttypes.ModuleName, markertypes.ModuleName, cs); err != nil {
+						t.Fatal(err)
+					}
+				}
 			}
 		}
 		o0 := e.observe(ctx, nd)
@@ -1520,6 +1579,12 @@ func TestC05(t *testing.T) {
 				}
 				if err == nil && p.has && c.has && c.supply.GT(prev.maxs.SubRaw(3)) && c.supply.LTE(prev.maxs) && c.supply.GT(p.supply) && (op.kind == "mint" || op.kind == "gov-supply-increase") && p.status == 3 {
 					w.Count("mints_reaching_max_boundary")
+				}
+				if c.bal(99).IsPositive() {
+					flags["histories_with_coins_in_the_marker_module_account"] = true
+					if err == nil && p.has && c.supply.LT(p.supply) {
+						w.Count("supply_decreases_with_coins_in_the_marker_module_account")
+					}
 				}
 				for x := 0; x < nd; x++ {
 					if x != d && c.bal(c05Esc(x)).IsPositive() {
